@@ -59,7 +59,9 @@ struct verif_ghost {
     char* nfc_out;
     size_t nfc_ret;
 } G;
+#ifndef VERIF_HAVE_GK
 size_t g_k;                   /* arbitrary but fixed ghost index (never written) */
+#endif
 #define g_mz_count G.mz_count
 #define g_mz_ptr G.mz_ptr
 #define g_mz_len G.mz_len
